@@ -219,6 +219,7 @@ def jobs(tier, seed):
           ("h_import", {"version": 3.1, "ids": "a", "names": "strings_dirs"}),
           ("h_import", {"version": 4.0, "ids": "b", "names": "strings_dirs"}),
           ("h_import", {"version": 3.0, "ids": "a", "via": "relion2emmotl", "halfsets": False}),
+          ("h_import", {"version": 3.1, "ids": "b", "via": "relion2emmotl"}), ("h_import", {"version": 4.0, "ids": "a", "names": "strings", "via": "relion2emmotl"}),
           ("h_roundtrip", {"version": 3.1, "ids": "b", "tomo_format": "TS_$xxx.rec", "subtomo_format": "subtomo/T_$xxxx/T$xxxx_$yyyyy_7.40A.mrc"}),
           ("h_roundtrip", {"version": 4.0, "ids": "b", "tomo_format": "TS_$xxx", "subtomo_format": "TS_$xxx/$y"})]
     if tier == "thorough":
